@@ -125,7 +125,7 @@ class Constructor:
         main_attrs = mapping.copy()
         extra_attrs = OrderedDict(mapping.items())
         for name in attr_names:
-            if name not in known_attrs or name == '_yatiml_extra':
+            if name not in known_attrs or name in ('self', '_yatiml_extra'):
                 del (main_attrs[name])
             else:
                 del (extra_attrs[name])
